@@ -75,4 +75,11 @@ def specs_for(path, b, seed, quick=True, small_limit=4096):
         for _ in range(npairs):
             (n1, o1, w1), (n2, o2, w2) = r.choice(fields), r.choice(fields)
             S.append(("pair", "%s|set=%d:%d,%d:%d" % (path, o1, r.choice(BOUND + [r.randrange(256)]), o2, r.choice(BOUND + [r.randrange(256)]))))
+    # havoc: several random bytes at once, copied blocks, swapped blocks (coverage-blind fuzzing of what the structured classes do not reach)
+    nh = 60 if quick else 1500
+    for _ in range(nh):
+        k = r.randint(3, 8)
+        hi = min(n, meta_end + 64)
+        edits = ",".join("%d:%d" % (r.randrange(hi), r.choice(BOUND + [r.randrange(256)])) for _ in range(k))
+        S.append(("havoc", "%s|set=%s" % (path, edits)))
     return S
